@@ -22,6 +22,8 @@ CONSTANTS
   GenMode = "%s"
   SeqDepth = 3
   PrioHashes = %d
+  AliasDepth = %d
+  ScanSet = "%s"
 INVARIANT CdfTotal
 INVARIANT CdfMonotone
 INVARIANT RecurrenceExact
@@ -31,6 +33,7 @@ INVARIANT BoundaryQuantile
 INVARIANT EndPoints
 INVARIANT QuantileMonotone
 INVARIANT BandSound
+INVARIANT ScanPointsInside
 %s
 CHECK_DEADLOCK FALSE
 """
@@ -49,7 +52,7 @@ def generate(ctx):
     quick = ctx.quick
     wmax = 6 if quick else 10
     # M + G in one exhaustive run: the invariants are the self-check, the constraint prints the points and the credential cases
-    m = ctx.tlc_must("Sortition", M_CFG % (wmax, "all", 3 if quick else 8, "CONSTRAINT Leaf"), name="M_G_enumeration", timeout=1500, coverage=not quick)
+    m = ctx.tlc_must("Sortition", M_CFG % (wmax, "all", 3 if quick else 8, 2 if quick else 3, "quick" if quick else "thorough", "CONSTRAINT Leaf"), name="M_G_enumeration", timeout=1500, coverage=not quick)
     ctx.cov["exhaustive"] = m.ok
     ctx.cov["design_violation"] = m.violated
     if m.violated:
@@ -57,24 +60,33 @@ def generate(ctx):
     if getattr(m, "zero_actions", None):
         ctx.cov["coverage_zero_actions"] = m.zero_actions
     seen = set()
-    pts, creds, seqs, prios = [], [], [], []
+    pts, creds, seqs, prios, alias, uniq = [], [], [], [], [], []
     for v in m.printed:
-        if not isinstance(v, dict) or v.get("kind") not in ("P", "C", "S", "Q"):
+        if not isinstance(v, dict) or v.get("kind") not in ("P", "C", "S", "Q", "A", "U"):
             continue
         k = json.dumps(v, sort_keys=True)
         if k in seen:
             continue
         seen.add(k)
-        {"P": pts, "C": creds, "S": seqs, "Q": prios}[v["kind"]].append(v)
-    for lst in (pts, creds, seqs, prios):
+        {"P": pts, "C": creds, "S": seqs, "Q": prios, "A": alias, "U": uniq}[v["kind"]].append(v)
+    for lst in (pts, creds, seqs, prios, alias, uniq):
         lst.sort(key=lambda r: json.dumps(r, sort_keys=True))
     rnd = random.Random(ctx.seed)
     if quick:
+        # window points: all triples of the mean = 20 switch, and a seeded sample of 200 triples of the grid around the 0.99 switch-over
+        triples = sorted({(p_["w"], p_["a"], p_["b"]) for p_ in pts if p_["tag"].startswith("win_") and p_["w"] * p_["a"] > 21 * p_["b"]})
+        rnd.shuffle(triples)
+        keep = set(triples[:200])
+        pts = [p_ for p_ in pts if not p_["tag"].startswith("win_") or p_["w"] * p_["a"] <= 21 * p_["b"] or (p_["w"], p_["a"], p_["b"]) in keep]
+        ctx.cov["window_triples"] = "%d of %d" % (len(keep), len(triples))
         # credential cases: the bases of one seed (and the searched upper-tail seeds, sd = 0), both keys / indices / steps, every
         # parameter triple, every perturbation
         creds = [c for c in creds if c["base"]["sd"] in (0, 1 + ctx.seed % 2)]
     # the sequences run first: nothing has been evaluated in the driver process before them
-    behs = witnesses() + seqs + pts + creds + prios
+    behs = witnesses() + seqs + alias + pts + creds + prios + uniq
+    ctx.cov["alias_sequences"] = len(alias)
+    ctx.cov["window_points"] = sum(1 for p_ in pts if p_["tag"].startswith("win_"))
+    ctx.cov["unique_cases"] = len(uniq)
     ctx.cov["sequences"] = len(seqs)
     ctx.cov["priority_cases"] = len(prios)
     # seeded random cases (the driver derives its PRNG from the seed and the behaviour index)
@@ -94,7 +106,12 @@ def judge(ctx, behs):
     vlib.write_ndjson(bpath, behs)
     trace = ctx.path("trace.ndjson")
     info = ctx.drive("sortition", trace, behaviours=bpath, timeout=1200)
-    ev = [e for e in vlib.read_ndjson(trace) if e.get("ev") in ("choose", "verify", "priority", "seq_issue", "seq_verify")]
+    ev = [e for e in vlib.read_ndjson(trace) if e.get("ev") in ("choose", "verify", "priority", "seq_issue", "seq_verify", "vrf_unique")]
+    mals = sorted({t["mal"] for e in ev if e["ev"] == "vrf_unique" for t in e["tries"]})
+    ctx.cov["malleations_tried"] = mals
+    ctx.cov["malleations_accepted"] = sorted({t["mal"] for e in ev if e["ev"] == "vrf_unique" for t in e["tries"] if t["accept"]})
+    if any(e.get("ev") == "note" for e in vlib.read_ndjson(trace)):
+        ctx.note("the code under test modified a big.Int input in place")
     ctx.cov["traces_validated_against_impl"] += len(ev)
     ctx.cov["evaluations"] += len(ev)
     # non-trivial: lines that are not skipped; distinct by (event kind, inputs)
@@ -115,6 +132,9 @@ def judge(ctx, behs):
         ctx.cov["drift_events"] += n
         print("DRIFT: property=C04 %s" % ctx.cov["conformance"], flush=True)
     f = result.get("fired", {})
+    if f.get("unique_transcription_rejected"):
+        raise vlib.Undecided("the harness transcription of Evaluate (malicious prover, honest settings) is rejected by the real ProofToHash: "
+                             "the transcription no longer matches the code")
     ctx.cov["scan_steps"] = f.get("scan_steps", 0)
     ctx.cov["max_denominator_bits"] = f.get("max_bits", 0)
     return trace
@@ -169,6 +189,11 @@ def run(ctx):
         "target = VRF output / (2^256 - 1) as the code computes it; the difference to / 2^256 is far below the tolerance",
         "VRF uniqueness/unforgeability and keccak are trusted; per-seat hash = keccak(output || i) with i in minimal big-endian bytes",
         "priority over seats 0..j (j + 1 hashes), a priority credential with j = 0 is accepted (DESIGN section 9, interpretation note)",
+        "OutputUniquePerKeyMessage: the driver acts as a malicious key holder with a transcription of Evaluate; malleations tried: the prefix "
+        "byte of the VRF point (0x00 0x01 0x02 0x03 0x05 0x06 0x07 0x44 0x84 0xff, challenge recomputed), the other y (control), s + N / t + N "
+        "when they fit 32 bytes (practically never), and on the honest proof: flipped prefix, extra byte, truncation",
+        "aliasing: every driven call passes the same big.Int objects for stake and total stake, mutated in place between calls; each call is "
+        "judged by the values recorded at call time",
     ]
     behs = generate(ctx)
     for b in behs[:3] + behs[-1:]:
